@@ -1,6 +1,6 @@
 #!/usr/bin/env bash
 # usage: tools/run_all.sh [quick|thorough] [seed]  — run every claimed check once, print one line per property
-cd /verif
+cd "$(dirname "$0")/.."
 TIER="${1:-quick}"; SEED="${2:-20260926}"
 rc=0
 for p in $(python3 -c "import json;print(' '.join(c['property_id'] for c in json.load(open('MANIFEST.json'))['checks']))"); do
